@@ -61,7 +61,9 @@ enum Kind { K_ROWS = 0, K_GRID = 1, K_POWERSET = 2, K_PRODUCT = 3 };
 
 struct Domain {
   std::string name; int kind; int modes; bool has_wrap, has_cip; bool is_box;
-  Domain() : kind(K_ROWS), modes(1), has_wrap(true), has_cip(true), is_box(false) {}
+  int extra_from;      // lazy states >= extra_from get the reduced threshold set {2,16} in the quick tier
+  bool ignores_thr;    // the domain's wrap_assign ignores complexity_threshold / wrap_individually (quick tier: thresholds {0,16})
+  Domain() : kind(K_ROWS), modes(1), has_wrap(true), has_cip(true), is_box(false), extra_from(1000), ignores_thr(false) {}
   virtual ~Domain() {}
   virtual Subject* build(const Built&, int mode) const = 0;
   virtual const char* mode_name(int mode) const = 0;
